@@ -201,3 +201,52 @@ Proof.
       specialize (Hdis _ Hin). rewrite Hk in Hdis. congruence.
   - rewrite (right_id_L ∅ (∪)). lia.
 Qed.
+
+(* ------------------------------------------------------------------ validated orders *)
+
+Lemma list_to_emap_None l k : list_to_emap l !! k = None <-> k ∉ map ek l.
+Proof.
+  unfold list_to_emap. rewrite <- not_elem_of_list_to_map.
+  rewrite <- list_fmap_compose. reflexivity.
+Qed.
+
+Lemma size_list_to_emap_le l : (size (list_to_emap l) <= length l)%nat.
+Proof.
+  induction l as [|x l IH]; [change (list_to_emap []) with (∅ : gmap N elem); rewrite map_size_empty; cbn; lia|].
+  rewrite list_to_emap_cons. cbn [length].
+  destruct (list_to_emap l !! ek x) as [y|] eqn:E.
+  - rewrite map_size_insert_Some by (rewrite E; eauto). lia.
+  - rewrite map_size_insert_None by exact E. lia.
+Qed.
+
+Lemma size_list_to_emap_nodup l : size (list_to_emap l) = length l -> NoDup (map ek l).
+Proof.
+  induction l as [|x l IH]; intros H; [constructor|].
+  rewrite list_to_emap_cons in H. cbn [length] in H. cbn [map].
+  pose proof (size_list_to_emap_le l) as Hle.
+  destruct (list_to_emap l !! ek x) as [y|] eqn:E.
+  - rewrite map_size_insert_Some in H by (rewrite E; eauto). lia.
+  - rewrite map_size_insert_None in H by exact E.
+    apply NoDup_cons. split; [apply list_to_emap_None; exact E|]. apply IH. lia.
+Qed.
+
+Lemma valid_order_spec m l :
+  valid_order m l = true ->
+  NoDup (map ek l) /\ list_to_emap l = m /\ N.of_nat (length l) = N.of_nat (size m) /\
+  (forall e, e ∈ l -> m !! ek e = Some e).
+Proof.
+  unfold valid_order. intros H. apply andb_prop in H as [H1 H2].
+  apply bool_decide_eq_true in H1. apply N.eqb_eq in H2.
+  assert (Hnd : NoDup (map ek l)).
+  { apply size_list_to_emap_nodup. rewrite H1. lia. }
+  repeat split; try assumption.
+  intros e He. rewrite <- H1. rewrite list_to_emap_lookup by exact Hnd.
+  apply lookup_list_nodup; auto.
+Qed.
+
+Lemma rt_abs_new_old t nt l i n :
+  hel nt = ∅ -> list_to_emap l = hel t -> rt_abs (RT nt (Some (Old (hB t) l i n))) = rt_abs (RT t None).
+Proof.
+  intros He Hl. unfold rt_abs. cbn [main lo orem]. rewrite He, Hl.
+  rewrite (left_id_L ∅ (∪)), (right_id_L ∅ (∪)). reflexivity.
+Qed.
